@@ -261,7 +261,7 @@ def r5_oneshot_emulation(ctx, rule="C04.R5"):
         else:
             out.append(holds(rule, "Resolver::open:direct-return", w, "lookup handle returned as-is only for a symlink opened with O_PATH|O_NOFOLLOW"))
     # every other success goes through reopen with the caller's flags
-    ro = T.return_origins(b, ("0",))
+    ro = T.return_origins(b, OKP)
     others = [x for x in ro if not (x.kind == "call" and x.term.callee in ("handle::Handle::reopen", "resolvers::openat2::open", "resolvers::Resolver::resolve"))]
     if others:
         out.append(violated(rule, "Resolver::open:result-origin", b.where(), "result of the one-shot open has another origin: %s" % others))
